@@ -4,13 +4,13 @@ import json, os, sys
 ROOT = os.path.dirname(os.path.dirname(os.path.abspath(__file__)))
 sys.path.insert(0, ROOT)
 from vlib.config import PROPS
-from vlib.manifest_meta import HOOK_COMMITS, PENDING_REASON, NOT_APPLICABLE
+from vlib.manifest_meta import HOOK_COMMITS, PENDING_REASON, NOT_APPLICABLE, READY
 META = {p: PROPS[p]['meta'] for p in PROPS if 'meta' in PROPS[p]}
 
 allp = [json.loads(l)["id"] for l in open(os.path.join(ROOT, "properties.jsonl"))]
 checks = []
 for p in allp:
-    if p not in PROPS or p not in META:
+    if p not in PROPS or p not in META or p not in READY:
         continue
     m = META[p]
     checks.append({
